@@ -168,7 +168,7 @@ func (a Affine) VarTerms() []string {
 	return out
 }
 
-func isIntType(t types.Type) bool {
+func affIsInt(t types.Type) bool {
 	if t == nil {
 		return false
 	}
@@ -193,12 +193,12 @@ func AffineOf(info *types.Info, e ast.Expr) (Affine, bool) {
 	switch x := e.(type) {
 	case *ast.Ident:
 		o := ObjOf(info, x)
-		if v, ok := o.(*types.Var); ok && isIntType(v.Type()) {
+		if v, ok := o.(*types.Var); ok && affIsInt(v.Type()) {
 			return AffVar(v), true
 		}
 	case *ast.SelectorExpr:
 		// field chain rooted at a variable: cw.maxMessageLength
-		if !isIntType(info.TypeOf(x)) {
+		if !affIsInt(info.TypeOf(x)) {
 			return Affine{}, false
 		}
 		path := ""
@@ -261,7 +261,7 @@ func AffineOf(info *types.Info, e ast.Expr) (Affine, bool) {
 			}
 		}
 		// integer conversion of an integer expression: int(x)
-		if tv, ok := info.Types[x.Fun]; ok && tv.IsType() && len(x.Args) == 1 && isIntType(tv.Type) && isIntType(info.TypeOf(x.Args[0])) {
+		if tv, ok := info.Types[x.Fun]; ok && tv.IsType() && len(x.Args) == 1 && affIsInt(tv.Type) && affIsInt(info.TypeOf(x.Args[0])) {
 			// only widening-or-same conversions between signed ints are transparent
 			from, _ := info.TypeOf(x.Args[0]).Underlying().(*types.Basic)
 			to, _ := tv.Type.Underlying().(*types.Basic)
@@ -325,7 +325,7 @@ func IntCmp(info *types.Info, e ast.Expr) (d Affine, op token.Token, ok bool) {
 	if !isCmp {
 		return Affine{}, 0, false
 	}
-	if !isIntType(info.TypeOf(a)) || !isIntType(info.TypeOf(b)) {
+	if !affIsInt(info.TypeOf(a)) || !affIsInt(info.TypeOf(b)) {
 		return Affine{}, 0, false
 	}
 	x, ok1 := AffineOf(info, a)
